@@ -297,6 +297,36 @@ class Machine:
                 self.content0[a] = z3.simplify(b).as_long()
                 self.mem.content[a] = self.content0[a]
 
+    def reinstall_pre(self):
+        """put the machine back into its initial architectural state (registers, CPSR, SPSRs, system registers,
+        flags, memory) -- whatever hidden per-instance state an earlier step left behind stays"""
+        env, regs, pre = self.env, self.arm.registers, self.pre
+        for name in RNAMES:
+            regs._R[self.RName[name]] = env.wrap(pre.R[name])
+        regs.cpsr.value = env.wrap(pre.cpsr)
+        for k in SPSRS:
+            setattr(regs, 'spsr_' + k, env.wrap(pre.spsr[k]))
+        regs.elr_hyp = env.wrap(pre.elr_hyp)
+        for attr, t in pre.sys.items():
+            if z3.is_bool(t):
+                continue
+            cur = dict(self._sys_items(regs)).get(attr)
+            if type(cur) in (bool,):
+                self._sys_put(regs, attr, False)
+            else:
+                self._sys_put(regs, attr, env.wrap(t))
+        regs.event_register = False
+        self.arm.is_wait_for_event = False
+        self.arm.is_wait_for_interrupt = False
+        if env.symbolic:
+            self.mem.array = self.mem0
+        elif isinstance(self.arm.mem, ReplayMem):
+            self.arm.mem.content = dict(self.content0)
+        else:
+            for mc in self.arm.mem.memories:
+                for i in range(len(mc.mem.memory_array)):
+                    mc.mem.memory_array[i] = self.content0.get(mc.beginning + i, 0)
+
     @staticmethod
     def _sys_items(regs):
         from armulator.armv6.all_registers.abstract_register import AbstractRegister
